@@ -167,6 +167,48 @@ theorem C19_pushdown {χ κ ρ : Type} (S : WSem χ κ ρ)
     compiledKeeps S keepsFullCurrent w inline r ↔ (PushedKeeps S inline r ∧ tv S w r = .tt) := by
   rw [where_filter_keeps_full]; exact pushdown_preserves_predicate S hsound w inline r
 
+/-! ### where a pushed-down filter may be placed (free variables) -/
+
+/-- a variable walker that descends into every expression variant finds every free variable
+    (binders of quantifiers / reduce / comprehensions respected) -/
+theorem walker_finds_free_variables (descends : EKind → Bool) (hall : ∀ k, descends k = true) (e : VE) :
+    ∀ x ∈ e.free, x ∈ e.walker descends :=
+  walker_complete descends hall e
+
+/-- **pushdown_sound**: a hop-level filter `alias.prop = value` placed where the planner's walker
+    sees only bound variables has all its FREE variables bound — only under the hypothesis that the
+    walker's result contains the true free variables of the value -/
+theorem pushdown_sound (descends : EKind → Bool) (bound : List String) (value : VE)
+    (hsup : ∀ x ∈ value.free, x ∈ value.walker descends)
+    (hallowed : placementAllowed descends bound value) : ScopeSound bound value :=
+  placement_sound descends bound value hsup hallowed
+
+/-- and then evaluating it there agrees with evaluating it on the completed row (so a conjunct
+    that is true at the end is kept at the hop: the `hsound` hypothesis of `C19_pushdown`) -/
+theorem pushdown_early_evaluation_agrees {ν β : Type} (eval : (String → Option ν) → β) (value : VE)
+    (hreads : ∀ r1 r2 : String → Option ν, (∀ x ∈ value.free, r1 x = r2 x) → eval r1 = eval r2)
+    (bound : List String) (hscope : ScopeSound bound value)
+    (early full : String → Option ν) (hext : ∀ x ∈ bound, early x = full x) : eval early = eval full :=
+  early_evaluation_agrees eval value hreads bound hscope early full hext
+
+/-- the working tree (both facts regenerated from ast_walk.rs): the values pushed down are literals
+    and parameters only — no free variable at all — or else the walker must descend into EVERY
+    variant of `ast::Expression` -/
+theorem pushdown_scope_current :
+    (∀ k ∈ Generated.pushdownValueKinds, k = "Literal" ∨ k = "Parameter") ∨
+    (∀ k ∈ EKind.all, walkerDescendsCurrent k = true) := by decide
+
+/-- a walker without an arm for CASE: `a.k = CASE WHEN b.k > 1 THEN 1 ELSE 0 END` may be placed
+    right after the scan of `a`, although `b` is free in it -/
+theorem C19_counterexample_incomplete_walker :
+    placementAllowed (fun k => k != EKind.case) ["a"] (VE.node .case [] (VE.leaf ["b"]) (VE.leaf [])) ∧
+    ¬ ScopeSound ["a"] (VE.node .case [] (VE.leaf ["b"]) (VE.leaf [])) := by
+  constructor
+  · intro x hx; simp [VE.walker] at hx
+  · intro h
+    have := h "b" (by simp [VE.free])
+    simp at this
+
 /-- rows are the value of `n.x`; `n.x = c` is true iff the value is `c` -/
 def xSem : WSem Unit Nat Nat where
   eqT _ c r := if r = c then .tt else .ff
